@@ -14,7 +14,7 @@ SEL = {
  "C01": [r"^poseidon\.", r"^utils\.(CheckBigInt|BigIntArrayToElementArray|ElementArrayToBigIntArray)", r"^ff\.Element\.(Exp|SetBigInt|setBigInt|ToBigIntRegular|ToBigInt|SetUint64|Add|Mul|Square|FromMont|ToMont|SetZero|SetOne|Set)$", r"^ff\.NewElement$"],
  "C02": [r"^babyjub\.(PrivateKey\.|PrivKeyScalar\.|NewPrivKeyScalar|SkToBigInt|pruneBuffer|Blake512|PublicKey\.Verify|PublicKey\.Point|Signature\.(Compress|Decompress)|SignatureComp\.Decompress|Point\.(Mul|Projective|Compress|Decompress)|PointProjective\.|NewPoint|PointFromSignAndY|PackSignY|UnpackSignY|PointCoordSign)", r"^utils\.(BigIntLEBytes|SetBigIntFromLEBytes|SwapEndianness)"],
  "C03": [r"^babyjub\.(PublicKey\.Verify|PublicKey\.Point|Point\.(Mul|Projective)|PointProjective\.|NewPoint)"],
- "C04": [r"^babyjub\.(Point\.(Mul|Projective)|PointProjective\.|NewPoint|init)", r"^ff\.Element\.(Inverse|Equal|SetBigInt|setBigInt|ToBigIntRegular|ToBigInt)$"],
+ "C04": [r"^babyjub\.(Point\.(Mul|Projective)|PointProjective\.|NewPoint|init)", r"^utils\.NewIntFromString", r"^ff\.Element\.(Inverse|Equal|SetBigInt|setBigInt|ToBigIntRegular|ToBigInt)$"],
  "C05": [r"^ff\.(BatchInvert|Element\.(Add|Sub|Neg|Double|Mul|Square|Div|Exp|Inverse|Halve|FromMont|ToMont|Set|SetZero|SetOne|IsZero|Equal)|One|NewElement|mulByConstant|_\w+Generic|madd\d|Butterfly@|MulBy\d+@|add@|sub@|neg@|double@|mul@|fromMont@|reduce@)"],
  "C06": [r"^babyjub\.(Point\.(Compress|Decompress)|PointFromSignAndY|PackSignY|UnpackSignY|PointCoordSign)", r"^utils\.(BigIntLEBytes|SetBigIntFromLEBytes|SwapEndianness)"],
  "C07": [r"^poseidon\.(Hash|HashEx|HashWithState|HashWithStateEx)$", r"^mimc7\.(Hash|HashGeneric|HashBytes)$", r"^utils\.CheckBigInt"],
@@ -47,6 +47,8 @@ for pid, res in SEL.items():
     sel = [k for k in keys if any(re.search(r, k) for r in res)]
     assert sel, pid
     pkgs = sorted({k.split(".")[0] + "." for k in sel})
+    # the non-function declarations (types, constants, variable initialisers) of every package touched
+    sel += [k for k in keys if "<decls>" in k and k.split(".")[0] + "." in pkgs and k not in sel]
     with open(os.path.join(LEAN, "I3", "Props", pid + "Pin.lean"), "w") as f:
         f.write(f"/-\n  I3.Props.{pid} (source pin) — the Go functions mirrored by the hand-written models of {pid} still have the\n"
                 f"  source text against which those models were validated, and no function was added to or removed\n"
